@@ -33,6 +33,26 @@ for _f in sorted(os.listdir(_d)):
             LEVEL_TEXT[_f[:-3]] = _m.LEVEL
 
 
+# "Another platform" configuration (see ./check CONFIGS): every model harness is also built with clang 14 and -funsigned-char
+# (other argument evaluation order and code generation, plain char unsigned as on ARM/PowerPC/RISC-V), assert-enabled, ASan+UBSan.
+# Where a check caps the release configuration in the quick tier the same cap applies.
+for _pid, _chk in CHECKS.items():
+    _new = []
+    for _rn in _chk.get('runs', []):
+        _rn = dict(_rn)
+        _q = _rn['configs']['quick']
+        if ('dbg-asan' in _q or _q == ['rel-asan']) and _rn['harness'] not in ('reread', 'mt_private', 'huge'):
+            _rn['configs'] = {'quick': list(_q) + ['clang-uchar-asan'], 'thorough': list(_rn['configs']['thorough']) + ['clang-uchar-asan']}
+            _mc = dict(_rn.get('max_cases', {}))
+            if 'rel-asan' in _mc:
+                _mc['clang-uchar-asan'] = _mc['rel-asan']
+            _rn['max_cases'] = _mc
+        _new.append(_rn)
+    if _new:
+        _chk['runs'] = _new
+        _chk['assumptions'] = list(_chk.get('assumptions', [])) + [
+            'configuration clang-uchar-asan: the same workload built with clang 14 -funsigned-char under its ASan/UBSan (a second compiler and the char signedness of ARM/PowerPC/RISC-V targets)']
+
 # Thread-compatibility supplement: several threads, each with PRIVATE objects of the property's
 # container family, under ThreadSanitizer (harness/mt_private.c).  Hidden shared state in the library
 # (static scratch nodes, cached pointers) breaks "operations on independent objects are independent".
